@@ -15,6 +15,7 @@ import LarkVerif.Cache
 import LarkVerif.Serialize
 import LarkVerif.Threads
 import LarkVerif.Mangle
+import LarkVerif.Priority
 import Std.Data.HashMap
 /-! Line-protocol driver: one JSON request per stdin line (`{"op": ...}`), one JSON answer per stdout line.
     Runs the *executable definitions the theorems are about*.  Not part of the proof library. -/
@@ -399,6 +400,28 @@ partial def pvJ : PV → Json
   | .dict ks vs => Json.mkObj [("keys", Json.arr (ks.map Json.str).toArray), ("vals", Json.arr (vs.map pvJ).toArray)]
   | .fset l => Json.mkObj [("fset", Json.arr (l.map pvJ).toArray)]
 
+open PrioProto in
+partial def aoOf (j : Json) : Except String AO := do
+  match j.getObjVal? "leaf" with
+  | .ok w => pure (AO.leaf (← w.getInt?))
+  | .error _ =>
+    match j.getObjVal? "or" with
+    | .ok alts =>
+      let l ← (← alts.getArr?).toList.mapM aoOf
+      pure (l.foldr AO.orCons AO.orNil)
+    | .error _ =>
+      let w ← (← j.getObjVal? "and").getInt?
+      let kids ← (← getArr j "kids").mapM aoOf
+      match kids with
+      | [] => pure (AO.and0 w)
+      | [c] => pure (AO.and1 w c)
+      | [l, r] => pure (AO.and2 w l r)
+      | _ => throw "packed node with more than two children"
+
+def optIntJ : Option Int → Json
+  | none => Json.null
+  | some n => Json.num (JsonNumber.fromInt n)
+
 def handle (j : Json) : Except String Json := do
   let op ← getStr j "op"
   match op with
@@ -447,6 +470,11 @@ def handle (j : Json) : Except String Json := do
   | "shape" => runShape j
   | "embed" => runEmbed j
   | "cache" => runCache j
+  | "ao" =>
+    let t ← aoOf (← j.getObjVal? "forest")
+    let ds := PrioProto.derivs t
+    pure (Json.mkObj [("prio", optIntJ (PrioProto.prio t)), ("best", optIntJ (PrioProto.best ds)), ("nderivs", natJ ds.length),
+                      ("min", optIntJ ((PrioProto.best (ds.map (fun x => -x))).map (fun x => -x)))])
   | "mangle" =>
     let pre := (← getStr j "prefix").toList
     let aliases ← (← getArr j "aliases").mapM fun a => do
